@@ -26,6 +26,10 @@ func verifOnLock() {
 		verifOnLockGme()
 		return
 	}
+	if verifDoneArmed {
+		verifOnLockDone()
+		return
+	}
 	if !verifGrowArmed || verifGrowBudget == 0 {
 		return
 	}
@@ -39,6 +43,9 @@ func verifOnLock() {
 // verifLock replaces X.mu.Lock() in native replays (rewrite in replay.go): the interference runs
 // inline at exactly the lock acquisition the executor interfered at.
 func verifLock(mu sync.Locker) {
+	if verifDoneArmed && mu == sync.Locker(&verifDoneW.gb.mu) {
+		verifOnLock()
+	}
 	if verifGrowArmed && mu == sync.Locker(&verifGrowW.gb.mu) {
 		verifGrowLocks++
 		if verifGrowLocks >= 2 {
